@@ -71,6 +71,9 @@ try:
         res["checks"][c] = {"exit": rc, "lines": [l[:200] for l in lines], "replay": rep, "s": round(time.time() - t0)}
 finally:
     run(["git", "-C", wt, "apply", "-R", diff])
+    # the translators name the repo they read in the header of the generated files: put /repo back (content is
+    # re-derived from the tree under test at the start of every check anyway)
+    run("sed -i 's#from /tmp/[A-Za-z0-9_/-]*/repo/#from /repo/#' /verif/lean/GraafVerif/Model/*Gen*.lean")
     # the patched harness copy + its build output for this scratch repo (≈0.5–3 GB): remove at once
     import hashlib, shutil
     shutil.rmtree(os.path.join("/verif/harness-alt", hashlib.sha1(wt.encode()).hexdigest()[:10]), ignore_errors=True)
